@@ -388,11 +388,105 @@ def c28_case(vals, reqs, nv, tmp, sol=None):
     return None
 
 
+class _FakeGurobi:
+    """A stand-in for the `gurobipy` module with the few calls sample_ilp.compute_solutions makes: `read` parses the
+    OPB file (independent evaluator above), `optimize` finds a 0/1 solution by exhaustive search.  Variables are
+    reported in *descending* order so that nothing may rely on their order."""
+
+    class GRB:
+        OPTIMAL = 2
+
+    class Env:
+        def __init__(self, empty=False):
+            pass
+
+        def __enter__(self):
+            return self
+
+        def __exit__(self, *a):
+            return False
+
+        def setParam(self, *a):
+            pass
+
+        def start(self):
+            pass
+
+    class _V:
+        def __init__(self, i, x):
+            self.VarName, self.X = "v%d" % i, float(x)
+
+    class _Model:
+        def __init__(self, text):
+            body = "\n".join(l for l in text.splitlines() if not l.lstrip().startswith("*"))
+            self.text = body
+            self.vars = sorted({int(m) for m in re.findall(r"v(\d+)", body)})
+            self.Status = 0
+            self.sol = None
+
+        def optimize(self):
+            top = max(self.vars) if self.vars else 0
+            for bits in itertools.product([False, True], repeat=len(self.vars)):
+                a = {v: b for v, b in zip(self.vars, bits)}
+                full = {i: a.get(i, False) for i in range(1, top + 1)}
+                if opb_eval_text(self.text, full):
+                    self.Status, self.sol = 2, a
+                    return
+            self.Status = 3
+
+        def getVars(self):
+            return [_FakeGurobi._V(v, 1 if self.sol[v] else 0) for v in sorted(self.vars, reverse=True)]
+
+    @staticmethod
+    def read(name, env=None):
+        return _FakeGurobi._Model(Path(name).read_text())
+
+
+def c28_iterate(vals, reqs, nv, support, tmp):
+    """sample_ilp's iterate-and-exclude loop, driven with the stand-in solver: it must return every assignment of
+    the support variables that extends to a solution of the written OPB problem, each exactly once."""
+    import contextlib, io
+    mod = types.ModuleType("gurobipy")
+    mod.Env, mod.read, mod.GRB = _FakeGurobi.Env, _FakeGurobi.read, _FakeGurobi.GRB
+    old = _sys.modules.get("gurobipy")
+    _sys.modules["gurobipy"] = mod
+    cwd = os.getcwd()
+    try:
+        os.chdir(tmp)
+        f = Path("iter.opb")
+        if f.exists():
+            f.unlink()
+        grs = [GenerationRequest(AssertionType[r["rel"]], r["k"], [Var(v) for v in r["vars"]]) for r in reqs]
+        with contextlib.redirect_stdout(io.StringIO()):
+            combine_and_save_opb(f, CNF(vals), support, grs)
+            text0 = f.read_text()
+            got = ILP.compute_solutions(f, support, 1 << (nv + 1))
+    finally:
+        os.chdir(cwd)
+        if old is None:
+            _sys.modules.pop("gurobipy", None)
+        else:
+            _sys.modules["gurobipy"] = old
+    body = "\n".join(l for l in text0.splitlines() if not l.lstrip().startswith("*"))
+    want = set()
+    for bits in itertools.product([False, True], repeat=nv):
+        a = {i + 1: b for i, b in enumerate(bits)}
+        if opb_eval_text(body, a):
+            want.add(tuple((i if a[i] else -i) for i in range(1, support + 1)))
+    gotk = [tuple(s) for s in got]
+    if len(set(gotk)) != len(gotk):
+        return "the iteration returned a solution twice: %s" % gotk
+    if set(gotk) != want:
+        return "the iteration returned %s, the support assignments that extend to a solution are %s" % (sorted(gotk), sorted(want))
+    return None
+
+
 def oracle_c28(ctx, budget_s):
     rng = ctx.rng
     ctx.rules.append("C28 oracle: for random clause sets + requests over <= 7 variables and EVERY assignment: an "
                      "independent evaluator of the OPB text agrees with 'the SAT encoding has an extension'; the "
-                     "appended line rejects exactly the previous solution")
+                     "appended line rejects exactly the previous solution; sample_ilp.compute_solutions driven with a stand-in "
+                     "solver module returns every support assignment that extends to a solution exactly once")
     t_end = ctx.elapsed() + budget_s
     with _Tmp() as tmp:
         # exhaustive single requests
@@ -420,6 +514,16 @@ def oracle_c28(ctx, budget_s):
             if r:
                 ctx.fail("C28: " + r, {"vals": vals, "reqs": reqs, "nv": nv, "sol": sol})
                 return
+            if nv >= 2 and ctx.counters.get("C28.oracle.iterate", 0) < (600 if ctx.big() else 80):
+                # the iterate-and-exclude loop itself (stand-in solver), on a support smaller than the variable set
+                support = rng.randint(1, nv - 1)
+                used = {abs(l) for cl in vals for l in cl} | {v for q in reqs for v in q["vars"]}
+                vals2 = vals + [[v, -v] for v in range(1, nv + 1) if v not in used]      # mention every variable
+                r = c28_iterate(vals2, reqs, nv, support, tmp)
+                ctx.count("C28.oracle.iterate")
+                if r:
+                    ctx.fail("C28: " + r, {"vals": vals2, "reqs": reqs, "nv": nv, "support": support, "iterate": True})
+                    return
             if ctx.counters.get("C28.oracle.random", 0) >= (3000 if ctx.big() else 400):
                 break
 
